@@ -71,6 +71,7 @@ def execute(trace):
 # C16
 # ==========================================================================================
 PIPE_STD = netgen.PIPE_STD_TYPES
+HEAT_PIPE_STD = ["ISOPLUS_DRE20_STD", "ISOPLUS_DRE25_1x", "ISOPLUS_DRE20_2x"]
 FLUIDS = ["lgas", "hgas", "water", "methane"]
 
 
@@ -102,7 +103,8 @@ def _gen_c16(rng, seed, tier):
 
 
 CREATE_FUNCS = ["create_junction", "create_junction", "create_sink", "create_source", "create_mass_storage", "create_ext_grid",
-                "create_pipe", "create_pipe_from_parameters", "create_valve", "create_pump", "create_compressor",
+                "create_pipe", "create_pipe_from_parameters", "create_valve", "create_pump", "create_pump_from_parameters",
+                "create_compressor",
                 "create_pressure_control", "create_flow_control", "create_heat_exchanger", "create_heat_consumer",
                 "create_circ_pump_const_pressure", "create_circ_pump_const_mass_flow",
                 "create_junctions", "create_sinks", "create_sources", "create_ext_grids", "create_pipes",
@@ -203,6 +205,11 @@ def _mk_call(rng, st, fn, fault):
             kw["text_k"] = round(rng.uniform(270, 295), 1)
         if rng.random() < 0.2 and not bulk:
             kw["geodata"] = [[0.0, 0.0], [1.0, 2.0]]
+        # per-call override of a parameter of the standard type (documented through **kwargs)
+        if rng.random() < 0.25:
+            kw["k_mm"] = rng.choice([0.05, 0.5])
+        if rng.random() < 0.2:
+            kw["u_w_per_m2k"] = rng.choice([0.8, 2.5])
     elif fn in ("create_pipe_from_parameters", "create_pipes_from_parameters"):
         s = "s" if bulk else ""
         kw = {"from_junction" + s: jrefs() if bulk else jref(), "to_junction" + s: jrefs() if bulk else jref(),
@@ -232,6 +239,13 @@ def _mk_call(rng, st, fn, fault):
             kw["loss_coefficient"] = 0.5
     elif fn == "create_pump":
         kw = {"from_junction": jref(), "to_junction": jref(), "std_type": rng.choice(["P1", "P2", "P3"])}
+    elif fn == "create_pump_from_parameters":
+        st["npumptypes"] = st.get("npumptypes", 0) + 1
+        kw = {"from_junction": jref(), "to_junction": jref(), "new_std_type_name": "vpump%d" % st["npumptypes"]}
+        if rng.random() < 0.5:
+            kw.update(pressure_list=[6.1, 5.8, 4.2, 1.5], flowrate_list=[0.0, 20.0, 40.0, 60.0], reg_polynomial_degree=rng.choice([1, 2]))
+        else:
+            kw["poly_coefficents"] = [round(rng.uniform(-0.002, -0.0005), 5), 0.02, round(rng.uniform(3, 8), 2)]
     elif fn == "create_compressor":
         kw = {"from_junction": jref(), "to_junction": jref(), "pressure_ratio": round(rng.uniform(1.05, 1.5), 3)}
     elif fn in ("create_pressure_control", "create_pressure_controls"):
@@ -276,6 +290,14 @@ def _mk_call(rng, st, fn, fault):
               "mdot_flow_kg_per_s": round(rng.uniform(0.1, 2), 3)}
         if rng.random() < 0.6:
             kw["t_flow_k"] = round(rng.uniform(330, 370), 1)
+    if bulk and rng.random() < 0.2:
+        # a value argument handed over as pandas Series with its own (default) labels: "Iterable" in the docs;
+        # the values count by position
+        cand = [x for x in sorted(kw) if isinstance(kw[x], list) and "junction" not in x and x not in ("elements", "geodata", "std_type", "et")
+                and all(isinstance(v_, (int, float)) for v_ in kw[x])]
+        if cand:
+            key = rng.choice(cand)
+            kw[key] = {"__series__": list(kw[key])}
     if explicit_index:
         if fn == "create_junctions":
             kw["index"] = _new_index(rng, st, "junction", k)
@@ -302,6 +324,8 @@ def _mk_call(rng, st, fn, fault):
             cands.append("bad-geodata")
         if fn == "create_mass_storage":
             cands.append("negative-storage-bound")
+        if fn == "create_pump_from_parameters":
+            cands += ["duplicate-std-type-name", "no-std-type-data"]
         if fn in ("create_ext_grid",):
             cands.append("ext-grid-no-values")
         if bulk and fn in ("create_sinks", "create_sources", "create_junctions"):
@@ -391,6 +415,11 @@ def _inject(rng, st, fn, kw, fkind, k, table):
         kw["et"] = "xx"
     elif fkind == "unknown-std-type":
         kw["std_type"] = "no_such_type"
+    elif fkind == "duplicate-std-type-name":
+        kw["new_std_type_name"] = "P1"
+    elif fkind == "no-std-type-data":
+        for x in ("pressure_list", "flowrate_list", "reg_polynomial_degree", "poly_coefficents"):
+            kw.pop(x, None)
     elif fkind == "duplicate-index":
         ex = _existing(st, table)
         if isinstance(kw["index"], list):
@@ -399,12 +428,12 @@ def _inject(rng, st, fn, kw, fkind, k, table):
         else:
             kw["index"] = rng.choice(ex)
     elif fkind == "wrong-length-array":
-        cand = [x for x in kw if isinstance(kw[x], list) and x not in ("index", "geodata") and "junction" not in x and x != "elements"]
+        cand = [x for x in kw if isinstance(kw[x], list) and x not in ("index", "geodata", "pressure_list", "flowrate_list", "poly_coefficents") and "junction" not in x and x != "elements"]
         if cand:
             key = rng.choice(cand)
             kw[key] = list(kw[key]) + [kw[key][0]]
         else:
-            key = rng.choice([x for x in ("mdot_kg_per_s", "p_bar", "length_km", "inner_diameter_mm", "controlled_mdot_kg_per_s", "qext_w", "controlled_p_bar") if x in kw] or ["name"])
+            key = rng.choice([x for x in ("mdot_kg_per_s", "p_bar", "length_km", "inner_diameter_mm", "controlled_mdot_kg_per_s", "qext_w", "controlled_p_bar") if x in kw and not isinstance(kw[x], dict)] or ["name"])
             kw[key] = [kw.get(key, "n")] * (k + 1) if key != "name" else ["n"] * (k + 1)
     elif fkind == "bad-geodata":
         kw["geodata"] = [1.0, 2.0, 3.0] if fn == "create_junction" else rng.choice([[1.0, 2.0, 3.0], "xy"])
@@ -494,15 +523,26 @@ def _exec_c16(trace, res):
     res.sig_parts.append(trace["fluid"] + ":" + trace.get("sector", "all"))
     for oi, op in enumerate(trace["ops"]):
         fn, kw, fault = op["fn"], copy.deepcopy(op["kw"]), op.get("fault")
+        for k_ in list(kw):
+            if isinstance(kw[k_], dict) and "__series__" in kw[k_]:
+                kw[k_] = pd.Series(kw[k_]["__series__"])
+                res.count("probe:series-valued-argument")
         f = getattr(pp, fn)
         before = snap.snapshot(net)
+        std_before = copy.deepcopy(net.get("std_types", {}))
         rows_before = _row_digests(net)
         kw_before = copy.deepcopy(kw)
         table = netmodel.TABLE_OF[fn]
-        if fault is None:
-            fault = _effective_fault(net, fn, kw, table)
-            if fault:
-                res.count("probe:history-made-call-invalid:%s" % fault)
+        # Whether a reference / index / type name is invalid depends on what earlier calls really left behind
+        # (the generator assumed valid calls succeed and rejected ones leave nothing; shrinking removes calls):
+        # state-dependent validity is always re-derived from the net as it is.
+        if fault is None or fault in STATE_FAULTS:
+            eff = _effective_fault(net, fn, kw, table)
+            if fault is None and eff:
+                res.count("probe:history-made-call-invalid:%s" % eff)
+            elif fault is not None and eff is None:
+                res.count("probe:history-made-call-valid:%s" % fault)
+            fault = eff
         integrity_before = set(check_integrity(net))
         try:
             ret = f(net, **kw)
@@ -530,9 +570,22 @@ def _exec_c16(trace, res):
                 res.violate("C16", "C16/valid-call-rejected:%s:%s:%s" % (fn, outcome[4:], slug), repr(ret)[:200], oi)
             continue
         # ---- success ------------------------------------------------------------------------------
-        if fault in ("missing-junction", "missing-pipe", "unknown-std-type", "duplicate-index", "unknown-et", "pipe-not-at-junction"):
+        if fault in ("missing-junction", "missing-pipe", "unknown-std-type", "duplicate-index", "unknown-et", "pipe-not-at-junction",
+                     "duplicate-std-type-name", "no-std-type-data"):
             res.violate("C16", "C16/invalid-accepted:%s:%s" % (fn, fault), "", oi)
             continue
+        # ---- a successful call adds rows (and, for create_pump_from_parameters, exactly its new standard type):
+        # every other entry of the net - standard types, fluid, name ... - is left alone
+        for k_ in sorted(set(before) | set(after)):
+            if isinstance(before.get(k_), dict) or isinstance(after.get(k_), dict) or k_ in ("component_list",):
+                continue
+            if before.get(k_) != after.get(k_):
+                if k_ == "std_types" and fn == "create_pump_from_parameters":
+                    now = net.get("std_types", {})
+                    rest = {c: {n_: v for n_, v in d_.items() if not (c == "pump" and n_ == kw["new_std_type_name"])} for c, d_ in now.items()}
+                    if snap.canon_deep(rest) == snap.canon_deep(std_before) and kw["new_std_type_name"] in now.get("pump", {}):
+                        continue
+                res.violate("C16", "C16/net-entry-changed:%s:%s" % (fn, k_), "", oi)
         if fault in ("wrong-length-array", "bad-geodata", "negative-storage-bound", "nan-in-bool", "ext-grid-no-values"):
             # malformed input that was accepted: the net must at least stay referentially intact
             res.count("probe:malformed-accepted:%s" % fault)
@@ -573,7 +626,7 @@ def _exec_c16(trace, res):
             col = KW_TO_COL.get(k_, k_)
             if k_ in NOT_COLUMNS or col not in df.columns:
                 continue
-            vals = v if isinstance(v, list) else [v] * len(new_idx)
+            vals = v if isinstance(v, list) else (list(v.values) if isinstance(v, pd.Series) else [v] * len(new_idx))
             if len(vals) != len(new_idx):
                 continue
             for i, want in zip(new_idx, vals):
@@ -600,10 +653,16 @@ def _exec_c16(trace, res):
                 if not _same_value(got, p.default):
                     res.violate("C16", "C16/default-not-applied:%s.%s" % (fn, col), "got %r want %r" % (got, p.default), oi)
                     break
+        if fn == "create_pump_from_parameters" and not all(df.at[i, "std_type"] == kw["new_std_type_name"] for i in new_idx):
+            res.violate("C16", "C16/value-not-stored:%s.std_type" % fn, "", oi)
         for b in sorted(set(check_integrity(net)) - integrity_before):
             res.violate("C16", "C16/dangling:%s@%s" % (b, fn), "", oi)
         res.oracle_checks += 1
     _tail_c16(trace, res)
+
+
+STATE_FAULTS = {"missing-junction", "missing-pipe", "pipe-not-at-junction", "duplicate-index", "unknown-std-type",
+                "duplicate-std-type-name", "no-std-type-data"}
 
 
 def _effective_fault(net, fn, kw, table):
@@ -637,6 +696,13 @@ def _effective_fault(net, fn, kw, table):
         sts = kw["std_type"] if isinstance(kw["std_type"], list) else [kw["std_type"]]
         if any(st not in have for st in sts):
             return "unknown-std-type"   # (the sector's library does not hold it)
+    if fn == "create_pump_from_parameters":
+        have = net.get("std_types", {}).get("pump", {})
+        has_data = ("poly_coefficents" in kw) or all(x in kw for x in ("pressure_list", "flowrate_list", "reg_polynomial_degree"))
+        if has_data and kw["new_std_type_name"] in have:
+            return "duplicate-std-type-name"
+        if not has_data and kw["new_std_type_name"] not in have:
+            return "no-std-type-data"
     if "index" in kw and table in net:
         idx = kw["index"] if isinstance(kw["index"], list) else [kw["index"]]
         if set(idx) & set(net[table].index):
@@ -763,13 +829,26 @@ def _tail_c16(trace, res):
     st = tail["std_type"]
     params = pp.std_types.load_std_type(a, st, "pipe") if hasattr(pp, "std_types") else {}
     try:
+        if rng.random() < 0.4:
+            st = rng.choice(HEAT_PIPE_STD)      # district-heating types carry a heat transfer value per metre
+            params = pp.std_types.load_std_type(a, st, "pipe")
         pp.create_pipe(a, 2, 3, st, 0.7, index=20)
         par = dict(params)
-        kwp = {"inner_diameter_mm": par["inner_diameter_mm"]}
+        # every parameter of the type that create_pipe_from_parameters takes (the per-metre heat transfer value is
+        # documented to be converted with the outer circumference)
+        kwp = {"inner_diameter_mm": par["inner_diameter_mm"], "outer_diameter_mm": par["outer_diameter_mm"], "k_mm": par["k_mm"]}
+        u2, u1 = par.get("u_w_per_m2k", float("nan")), par.get("u_w_per_mk", float("nan"))
+        kwp["u_w_per_m2k"] = u2 if not np.isnan(u2) else (u1 / (par["outer_diameter_mm"] * np.pi) * 1000.0 if not np.isnan(u1) else float("nan"))
         pp.create_pipe_from_parameters(b, 2, 3, 0.7, index=20, **kwp)
-        for c in ("inner_diameter_mm", "from_junction", "to_junction", "length_km", "sections", "loss_coefficient", "in_service"):
-            if not _same_value(a.pipe.at[20, c], b.pipe.at[20, c]):
-                res.violate("C16", "C16/std-type-differs-from-parameters:pipe.%s" % c, "%r vs %r" % (a.pipe.at[20, c], b.pipe.at[20, c]), len(trace["ops"]))
+        for c in a.pipe.columns:
+            if c in ("std_type", "name"):
+                continue
+            x, y = a.pipe.at[20, c], b.pipe.at[20, c]
+            same = _same_value(x, y) or (isinstance(x, float) and isinstance(y, float) and abs(x - y) <= 1e-12 * abs(y))
+            if not same or a.pipe[c].dtype != b.pipe[c].dtype:
+                res.violate("C16", "C16/std-type-differs-from-parameters:pipe.%s" % c, "%r vs %r" % (x, y), len(trace["ops"]))
+        if sorted(a.pipe.columns) != sorted(b.pipe.columns):
+            res.violate("C16", "C16/std-type-differs-from-parameters:pipe.@columns", "", len(trace["ops"]))
         if not _same_value(a.pipe.at[20, "inner_diameter_mm"], float(par["inner_diameter_mm"])):
             res.violate("C16", "C16/std-type-parameter-not-reached:pipe.inner_diameter_mm", "", len(trace["ops"]))
         res.oracle_checks += 1
